@@ -298,6 +298,84 @@ def r18_cmp_minmax(sig, body):
     return sig, body, n
 
 
+def r19_closure_contract(sig, body):
+    """R19: a one-parameter comparison closure `|v| EXPR` (addresses compared) -> `|v: usize| -> (r__: bool) ensures r__ == (EXPR) { EXPR }`
+    (Verus knows nothing about an unannotated closure's result; the contract is the closure's own body, copied)"""
+    n = 0
+    pos = 0
+    while True:
+        mask = rsx.code_mask(body)
+        m = None
+        for mm in re.finditer(r'\|\s*(\w+)\s*\|(?!\|)', body[pos:]):
+            st = pos + mm.start()
+            if not mask[st]:
+                continue
+            k = st - 1
+            while k >= 0 and body[k].isspace():
+                k -= 1
+            if k >= 0 and body[k] in '=(,':
+                m = (st, pos + mm.end(), mm.group(1))
+                break
+        if not m:
+            break
+        st, en, var = m
+        depth = 0
+        k = en
+        while k < len(body):
+            if mask[k]:
+                c = body[k]
+                if c in '([{':
+                    depth += 1
+                elif c in ')]}':
+                    if depth == 0:
+                        break
+                    depth -= 1
+                elif c in ';,' and depth == 0:
+                    break
+            k += 1
+        expr = body[en:k].strip()
+        if expr.startswith('{') or not expr:
+            pos = en
+            continue
+        new = '|%s: usize| -> (r__: bool) ensures r__ == (%s) { %s }' % (var, expr, expr)
+        body = body[:st] + new + body[k:]
+        pos = st + len(new)
+        n += 1
+    return sig, body, n
+
+
+def r20_ptr_offset(sig, body):
+    """R20: `unsafe { P.offset(E as isize) }` -> `ip_offset(P, E)` (code addresses are modelled by offsets; the unit's ip_offset stub is P + E and demands no overflow)"""
+    n = 0
+    pos = 0
+    while True:
+        m = re.search(r'unsafe\s*\{\s*([\w.]+)\.offset\s*\(', body[pos:])
+        if not m:
+            break
+        op = pos + m.end() - 1
+        cl = _match_paren(body, op)
+        arg = body[op + 1:cl].strip()
+        m2 = re.match(r'\s*\}', body[cl + 1:])
+        ma = re.match(r'^(.*)\bas\s+isize$', arg, re.S)
+        if not m2 or not ma:
+            pos = pos + m.end()
+            continue
+        e = ma.group(1).strip()
+        if e.startswith('(') and _match_paren(e, 0) == len(e) - 1:
+            e = e[1:-1].strip()
+        new = 'ip_offset(%s, %s)' % (m.group(1), e)
+        body = body[:pos + m.start()] + new + body[cl + 1 + m2.end():]
+        pos = pos + m.start() + len(new)
+        n += 1
+    return sig, body, n
+
+
+def r21_opcode_cast(sig, body):
+    """R21: `OpCode::X as u8` -> `opcode_u8(OpCode::X)` (the cast of the #[repr(u8)] enum, by contract `== opcode_byte(X)`)"""
+    body, n = re.subn(r'\bOpCode::(\w+)\s+as\s+u8\b', r'opcode_u8(OpCode::\1)', body)
+    return sig, body, n
+
+
 RULES = {
     'R1': r1_error_macro,
     'R3': r3_continue_guard,
@@ -314,6 +392,9 @@ RULES = {
     'R17': r17_inclusive_range,
     'R18': r18_cmp_minmax,
     'R14': r14_intern,
+    'R19': r19_closure_contract,
+    'R20': r20_ptr_offset,
+    'R21': r21_opcode_cast,
 }
 
 DESCRIPTIONS = {k: (v.__doc__ or '').strip() for k, v in RULES.items()}
